@@ -376,6 +376,43 @@ static void c17_writer_seq(size_t cap, const std::vector<IoOp>& seq, const char*
   }
 }
 
+// StreamWriter over a sink that fills up (a fixed-size device, a full disk): the streambuf refuses characters beyond its capacity. Every call that fits is
+// accepted and puts exactly its bytes on the sink; the first call that does not fit must come back as an error (bytes of that call may have reached the
+// sink). Also a FdWriter on /dev/full (every ::write fails with ENOSPC): no call may report success.
+struct FixedSinkBuf : std::streambuf {
+  std::string data; size_t cap;
+  explicit FixedSinkBuf(size_t c) : cap(c) {}
+  int_type overflow(int_type c) override { if (traits_type::eq_int_type(c, traits_type::eof())) return traits_type::not_eof(c); if (data.size() >= cap) return traits_type::eof(); data.push_back(traits_type::to_char_type(c)); return c; }
+  std::streamsize xsputn(const char* p, std::streamsize n) override { size_t k = std::min((size_t)n, cap - data.size()); data.append(p, k); return (std::streamsize)k; }
+};
+static void c17_full_sink_seq(size_t cap, const std::vector<IoOp>& seq, const char* type, int64_t case_idx, const std::string& stage) {
+  FixedSinkBuf sink(cap); nop::StreamWriter<std::ostream> w(&sink); Bytes model;
+  for (size_t i = 0; i < seq.size(); i++) {
+    const IoOp& o = seq[i]; if (o.kind == OP_ENSURE) continue;
+    uint64_t rem = cap - model.size();
+    uint64_t n = o.kind == OP_READ1 ? 1 : resolve(o.sz, o.kind == OP_BLOCK ? rem / o.w : rem, i + o.val);
+    if (o.kind == OP_BLOCK && n > 64) n = rem / o.w + 1 + (n % 3);
+    if (o.kind == OP_SKIP && n > rem + 40) n = rem + 1 + (n % 7);
+    uint64_t nbytes = o.kind == OP_BLOCK ? n * o.w : n; uint8_t val = (uint8_t)(o.val * 29 + 3);
+    const bool fits = nbytes <= rem;
+    Res got = apply_write(w, o.kind, n, o.w, val);
+    rep().count("c17_writer_calls"); rep().count("c17_stream_writer_calls_on_a_sink_that_fills_up");
+    auto viol = [&](const std::string& key, const std::string& what) { std::vector<IoOp> sq(seq.begin(), seq.begin() + i + 1);
+      rep().violation(fmt("C17:writer:%s:StreamWriter<full sink>", key.c_str()), fmt("StreamWriter over a %zu-byte sink: %s; calls %s", cap, what.c_str(), seq_str(sq, true).c_str()), case_desc(type, case_idx, stage, J().s("writer", "StreamWriter<full sink>").raw("ops", seq_str(sq, true)).u("capacity", cap).str())); };
+    if (got.ok != fits) { viol(fits ? "refuses-fitting-call" : "accepts-call-beyond-capacity", fmt("%s of %" PRIu64 " bytes with %" PRIu64 " bytes left on the sink returned %s (the sink holds %zu bytes)", kWName[o.kind], nbytes, rem, got.ok ? "ok" : errname(got.err), sink.data.size())); return; }
+    if (!got.ok) { if (got.err != nop::ErrorStatus::StreamError) viol("category", fmt("a refused character was reported as '%s'", errname(got.err))); return; }   // the stream is in a failed state from here on
+    if (o.kind == OP_READ1) model.push_back(val); else if (o.kind == OP_SKIP) model.insert(model.end(), (size_t)n, val); else for (size_t k = 0; k < nbytes; k++) model.push_back((uint8_t)(val + k * 13));
+    if (Bytes(sink.data.begin(), sink.data.end()) != model) { viol(fmt("bytes:%s", kWName[o.kind]), "the bytes on the sink differ from the model"); return; }
+  }
+}
+static void c17_dev_full() {
+  if (!mine(31)) return;
+  int fd = ::open("/dev/full", O_WRONLY); if (fd < 0) return;
+  { nop::FdWriter w(fd); uint32_t blk[4] = {1, 2, 3, 4};
+    struct { const char* what; bool ok; } t[] = {{"Write(byte)", (bool)w.Write((uint8_t)7)}, {"Write(block)", (bool)w.Write(blk, blk + 4)}, {"Write(byte) again", (bool)w.Write((uint8_t)8)}};
+    for (auto& x : t) { rep().count("c17_fd_writer_calls_on_dev_full"); if (x.ok) rep().violation("C17:writer:accepts-call-beyond-capacity:FdWriter</dev/full>", fmt("FdWriter on /dev/full (every write fails with ENOSPC): %s reported success", x.what), case_desc("dev-full", 0, "dev-full")); } }
+}
+
 // ================================================================= C17: compile-time serialization equals run time
 template <typename T, size_t Size> struct CxArray {
   T elements[Size];
@@ -522,6 +559,7 @@ template <typename E> static void c17_typed_buffer(const char* ename) {
 static void run_c17() {
   bool th = args().thorough();
   if (mine(3) && (args().only_type.empty() || args().only_type == "typed-buffer")) { c17_typed_buffer<uint8_t>("uint8_t"); c17_typed_buffer<char>("char"); c17_typed_buffer<uint16_t>("uint16_t"); c17_typed_buffer<uint32_t>("uint32_t"); c17_typed_buffer<int64_t>("int64_t"); c17_typed_buffer<double>("double"); }
+  if (args().only_type.empty()) c17_dev_full();
   if (args().only_type.empty() || args().only_type == "fd-storm") for (uint64_t n = 0; n < (th ? 4000u : 240u); n++) { if (args().only_case >= 0 ? (uint64_t)args().only_case != n : !mine(n)) continue; c17_fd_storm(n); }
   auto ral = alphabet(false, true, true, true);
   auto ral_noskip = alphabet(false, true, false, true);
@@ -539,7 +577,7 @@ static void run_c17() {
   auto wal = alphabet(false, true, true, true), wal_noskip = alphabet(false, true, false, true);
   std::vector<size_t> caps = {0, 1, 2, 7, 8, 9, 16, 31, 64};
   for (size_t ci = 0; ci < caps.size(); ci++) {
-    auto run = [&](const std::vector<IoOp>& s, int64_t n, const std::string& st) { c17_writer_seq(caps[ci], s, "writer-contract", n, st); };
+    auto run = [&](const std::vector<IoOp>& s, int64_t n, const std::string& st) { c17_writer_seq(caps[ci], s, "writer-contract", n, st); c17_full_sink_seq(caps[ci], s, "writer-contract", n, st); };
     enumerate("writer-contract", "wr", wal, th ? 3 : 2, ci, caps.size(), run);
     enumerate("writer-contract", "wrns", wal_noskip, th ? 3 : 2, ci, caps.size(), run);
     randomized("writer-contract", "wr", wal, th ? 20000 : 1500, 3, 10, ci, caps.size(), run);
